@@ -30,10 +30,10 @@ LEVEL_TEXT = ("Proved in Lean 4 about the executable model the driver runs (AslM
               "code's sequence of placement-construct / destroy / memmove / malloc-or-realloc steps on raw cells, blocks with header "
               "n/s/rc, handles as block ids, relocation on growth): (1) layerB_refines / layerB_self_reference / layerB_pointer_self_reference - for every block, "
               "capacity and in-range argument each member (reserve on both allocation paths, resize, insert incl. an element of the "
-              "same array, remove incl. counts beyond the end, removeIf, append incl. append(a) and append(a.data()+j,k), copy incl. "
+              "same array, remove incl. counts beyond the end (a statement over unbounded integers; remove_guard_no_wrap bridges it to the 32-bit test of the code, the int overflow repaired by 0854fc0 itself is seen by the K op remx under UBSan only), removeIf, append incl. append(a) and append(a.data()+j,k), copy incl. "
               "copy(a.data()+j,k)) touches only constructed cells inside the block, "
               "constructs and destroys each element exactly once (explicit live counter) and computes the list function of the "
-              "reference semantics; (2) array_refines_every_run - for EVERY finite history of the 41 protocol operations as the driver "
+              "reference semantics; (2) array_refines_every_run - for EVERY finite history of the 45 protocol operations as the driver "
               "runs it (an operation that would increase the capacity of a block whose rc > 1 is left out, by the same decidable guard "
               "in harness and model), with no hypothesis on the history, every call result and every handle's (elements, rc()) equal "
               "the reference semantics 'handles -> shared sequences' and no access leaves live storage (simulation with block-id "
@@ -46,11 +46,17 @@ LEVEL_TEXT = ("Proved in Lean 4 about the executable model the driver runs (AslM
               "history that does not write through the clone's own handle; stack_lifo, queue_fifo; (4) array_full_counterexample - "
               "without the guard the statement is false (a=[]; b=a; a<<0<<1<<2<<3). The model is tied to the current source on every "
               "run by the correspondence check (real Array/Stack/Queue of int, String and a counted heap-payload type under ASan/LSan; "
-              "all six handles' elements, rc() and cap() compared after every operation) and an independent python reference.")
+              "all six handles' elements, rc() and cap() compared after every operation) and, except for the Array<Node> histories, an "
+              "independent python reference. The Array<Node> histories (prefix na; arguments stored inside an element of the same array) "
+              "are NOT part of what is proved here: they are compared by K only, against a reference-level Lean model without theorems.")
 LEVEL_NOTE = ("Recursive element type (struct Node { int v; Array<Node> kids; }: a = a[j].kids, a.append(a[j].kids), a.copy(a[j].kids), "
               "converting a = a[j].ints; repaired by 46697f8 / 8a65fa2 / 752cb8b): NOT in the proved model - these histories (prefix na) are compared by K only, against a "
-              "reference-level Lean model with explicit reference counts (AslModel/ArrayNested.lean, no theorems), and operations that may "
-              "grow a block are left out whenever the block is shared at all. Known finding shared-growth: operations that would increase the capacity of a block whose rc > 1 are excluded (left out "
+              "reference-level Lean model with explicit reference counts (AslModel/ArrayNested.lean, no theorems; it describes the "
+              "repaired order 'take the new block, then release', not the code's individual steps; the driver re-checks after every "
+              "step that each count equals slots + element references, and there is no python oracle for these lines - the oracles are "
+              "that model and ASan/LSan), and operations that may grow a block are left out whenever the block is shared at all. The "
+              "proved counterpart of this K-only model is lean/AslModel/RcNest.lean with C12.nested_programs_safe (release cascade and "
+              "acquire-before-release for handles stored inside objects, in general). Known finding shared-growth: operations that would increase the capacity of a block whose rc > 1 are excluded (left out "
               "by harness and model; the theorems are about exactly those runs). Not covered by model or harness: converting "
               "constructor (operator=(Array<K>) only in the Array<Node> histories), operator=(Var), initializer-list constructor/assignment/append, map / map_ / with, "
               "operator< of arrays, join, deprecated destroy()/ptr conversions, shuffle. sortBy: in bounds, terminating, permutation proved; sortedness only where the key order is strict total on the "
